@@ -74,7 +74,7 @@ CFG = {
     "props_modules": ["FileD.Props.C20"],
     "nontrivial": c20_nontrivial,
     "classify": c20_classify,
-    "rule": "c20.spam: every sequence over {event inside the interval, event a whole interval later, isNewSource event, maintenance} up to length 6 (quick) / 8 (thorough) for one source under small (threshold, unbanIterations) pairs, then random multi-source sequences (thresholds 1..6, rule lists with thresholds -1/0/1..6, exceptions, PRNG arrival times incl. out-of-order and int64 extremes, maintenance at PRNG positions, int32-extreme thresholds); c20.in: every record over {a,b,\\n} up to length 5 (quick) / 7 (thorough) under limits 0..3 with and without cut-off through the raw decoder, then random JSON/raw records sized around the limit through pipelines with antispam thresholds 0..4, exceptions, source_name_meta_field, stream offsets and PassEvent answers; distinct = distinct case line; non-trivial = (spam) some IsSpam call answered true and a maintenance round ran, (in) the case has both a delivered and a refused record",
+    "rule": "c20.spam: every sequence over {event inside the interval, event a whole interval later, isNewSource event, maintenance} up to length 7 (quick) / 8 (thorough) for one source under small (threshold, unbanIterations) pairs, then random multi-source sequences (thresholds 1..6, rule lists with thresholds -1/0/1..6, exceptions, PRNG arrival times incl. out-of-order and int64 extremes, maintenance at PRNG positions, int32-extreme thresholds); c20.in: every record over {a,b,\\n} up to length 5 (quick) / 7 (thorough) under limits 0..3 with and without cut-off through the raw decoder, then random JSON/raw records sized around the limit through pipelines with antispam thresholds 0..4, exceptions, source_name_meta_field, stream offsets and PassEvent answers; distinct = distinct case line; non-trivial = (spam) some IsSpam call answered true and a maintenance round ran, (in) the case has both a delivered and a refused record",
     "corr_name": "Admission.inSeq = Pipeline.In per record (refused | delivered event tree); Antispam.isSpam/maintenance/dump = Antispammer.IsSpam answers and Dump() before/after every Maintenance",
     "trusted_base": [
         "oracle parameters evaluated by the harness on the concrete input and shipped in the case line: JSON decoding (insane-json via decoder.New(JSON)), matchrule.RuleSet.Match of every exception on event bytes and on the source name, doif.Checker.Check of every rule, PassEvent; exec re-evaluates them and rejects a case line whose oracle values differ",
